@@ -111,8 +111,10 @@ def admin_program(traces, name):
 
 
 # ------------------------------------------------------------------------------------------------ bounded model check over symbolic schedules
-def bmc(wprog, await_idx, pause_prog, resume_prog, nwaiters, ncmds, K, timeout_ms, cooperative=False):
-    """Is there a schedule (<= K steps) after which a waiter is parked forever although the pool is not paused?"""
+def bmc(wprog, await_idx, pause_prog, resume_prog, nwaiters, ncmds, K, timeout_ms, cooperative=False, goal='lost-wakeup'):
+    """goal 'lost-wakeup': is there a schedule (<= K steps) after which a waiter is parked forever although the pool is not paused?
+    goal 'gate': is there a schedule in which a waiter that READ paused == true gets past its await while the pool is paused and no RESUME has
+    notified anyone since it looked (it can only have consumed a stale permit)?"""
     s = z3.Solver()
     s.set('timeout', timeout_ms)
     W = range(nwaiters)
@@ -140,6 +142,20 @@ def bmc(wprog, await_idx, pause_prog, resume_prog, nwaiters, ncmds, K, timeout_m
     n = len(wprog)
     # initial state
     s.add(z3.Not(P[0]), G[0] == 0, z3.Not(permit[0]), apc[0] == 0)
+    gl = [[z3.Int('gl_%d_%d' % (w, t)) for t in T] for w in W]          # the notify_waiters generation when the waiter read the flag
+    gate = [z3.Bool('gate_%d' % t) for t in T]
+    s.add(z3.Not(gate[0]))
+    load_idx = wprog.index('load') if 'load' in wprog else -7
+    for t in range(K):
+        passes = []
+        for w in W:
+            s.add(gl[w][t + 1] == z3.If(z3.And(sched[t] == w, pc[w][t] == load_idx), G[t], gl[w][t]))
+            if await_idx is not None:
+                can_ = z3.Or(z3.And(snap[w][t] >= 0, G[t] != snap[w][t]), permit[t], woken[w][t])
+                passes.append(z3.And(sched[t] == w, pc[w][t] == await_idx, loaded[w][t], can_, P[t], G[t] == gl[w][t]))
+        s.add(gate[t + 1] == z3.Or(gate[t], *passes))
+    for w in W:
+        s.add(gl[w][0] == -1)
     for w in W:
         s.add(pc[w][0] == 0, snap[w][0] == -1, z3.Not(loaded[w][0]), z3.Not(parked[w][0]), z3.Not(woken[w][0]))
     for t in range(K):
@@ -222,9 +238,12 @@ def bmc(wprog, await_idx, pause_prog, resume_prog, nwaiters, ncmds, K, timeout_m
         stuck = z3.And(pc[w][K] == await_idx, loaded[w][K], parked[w][K],
                        z3.Not(z3.Or(z3.And(snap[w][K] >= 0, G[K] != snap[w][K]), permit[K], woken[w][K])))
         bad.append(stuck)
-    if not bad:
+    if goal == 'gate':
+        s.add(gate[K])
+    elif not bad:
         return 'unsat', None, s
-    s.add(apc[K] == ADMIN_END, z3.Not(P[K]), z3.Or(*bad))
+    else:
+        s.add(apc[K] == ADMIN_END, z3.Not(P[K]), z3.Or(*bad))
     r = s.check()
     if r == z3.sat:
         m = s.model()
@@ -283,6 +302,18 @@ def c16_script(nwaiters):
         stuck = [i for i, d in enumerate(r['done']) if not d]
         return (bool(stuck) and not r['paused'], 'after the script the pool is %s and waiter(s) %r are still blocked (final polls: %r)'
                 % ('paused' if r['paused'] else 'NOT paused', stuck, r['done']))
+    return f
+
+
+@expectation('c16_gate')
+def c16_gate():
+    def f(res):
+        r = res[0]
+        if 'panic' in r or 'error' in r:
+            return ('panic' in r), 'native: %r' % (r,)
+        passed = [i for i, d in enumerate(r['done']) if d]
+        return (bool(passed) and r['paused'], 'after the script the pool is %s and waiter(s) %r got past wait_paused (final polls: %r)' %
+                ('PAUSED' if r['paused'] else 'not paused', passed, r['done']))
     return f
 
 
@@ -359,6 +390,29 @@ def main(chk):
                            {'commands': [{'op': 'pause_stress', 'iters': 400000}], 'expect': ['c16_stress']})
         ob.samples.append({'result': r})
         # vacuity witness: a waiter CAN be parked while the pool is paused (the bad-state shape is reachable when P is true)
+        chk.end(ob)
+    # the other half: nobody gets past the gate on a stale permit while the pool is paused
+    for nw, nc in ((1, 2), (1, 3)) + (((2, 3),) if chk.thorough else ()):
+        K = (len(wprog) + 1) * nw + nc * max(len(pause_prog), len(resume_prog)) + 2
+        ob = chk.begin('O2-gate-%dwaiters-%dcommands' % (nw, nc), 'no interleaving of %d waiter(s) with %d admin command(s) lets a waiter that read paused == true get past its '
+                       'await while the pool is paused and no RESUME has notified anyone since it looked (tokio: notify_one with nobody waiting stores a permit that the '
+                       'next notified().await consumes)' % (nw, nc), {'waiters': nw, 'admin_commands': nc, 'steps': K})
+        t0 = time.time()
+        r, cex, s = bmc(wprog, await_idx, pause_prog, resume_prog, nw, nc, K, chk.timeout_ms, cooperative=True, goal='gate')
+        ob.stats.queries += 1
+        ob.stats.solver_s += time.time() - t0
+        ob.nontrivial += 1
+        if r == 'unknown':
+            ob.stats.unknown += 1
+            chk.note_inconclusive('BMC gate query returned unknown')
+        elif r == 'unsat':
+            ob.stats.unsat += 1
+        else:
+            ob.stats.sat += 1
+            script = coarse_script(wprog, cex, nw)
+            chk.report(ob, 'C16/O2/gate-passed-while-paused', 'a client gets past wait_paused while the pool is paused (a stale Notify permit): admin %r, schedule %r'
+                       % (cex['commands'], cex['schedule']), cex, {'commands': [{'op': 'pause_script', 'waiters': nw, 'script': script, 'gate': True}], 'expect': ['c16_gate']})
+        ob.samples.append({'result': r})
         chk.end(ob)
     # reachability witness for the encoding: with admin = [pause] a waiter can be parked (pool paused)
     ob = chk.begin('O2-witness', 'vacuity witness: a waiter parked while the pool IS paused is reachable in the same encoding', {})
